@@ -192,14 +192,34 @@ def run(tier, seed, model_ok=True):
             res.count("resize-cases")
 
     # ---- stored only on the owner
-    def dos(R):
-        nodes, ppn = factor_layout(R)
-        return R, C.run_sim(binary, ["stored", 120 if tier == "quick" else 600, seed], nodes=nodes, ppn=ppn, want_log=False, timeout=300)
+    def stored_env(j):
+        env = {"YGM_COMM_ROUTING": j["routing"]}
+        if j["kb"] is not None:
+            env["YGM_COMM_BUFFER_SIZE_KB"] = j["kb"]
+        if j["placement"]:
+            env["SIMMPI_PLACEMENT"] = j["placement"]
+        return env
 
-    for R, sr in C.pmap(dos, [1, 2, 3, 4, 6] if tier == "quick" else list(range(1, 10))):
+    def dos(j):
+        nodes, ppn = factor_layout(j["R"])
+        return j, C.run_sim(binary, ["stored", 120 if tier == "quick" else 600, seed], nodes=nodes, ppn=ppn, env=stored_env(j), want_log=False, timeout=300)
+
+    # routing schemes with forwarding hops, tiny buffers and round-robin placement of ranks on nodes: the process that EXECUTES an
+    # operation must be the owner in the communicator's own rank numbering, whatever route the message took
+    VARIANTS = [("NONE", None, None), ("NLNR", None, 0), ("NR", "cyclic", 1), ("NLNR", "cyclic", None), ("NR", None, None), ("NONE", "cyclic", 0)]
+    sjobs = []
+    for R in ([1, 2, 3, 4, 6] if tier == "quick" else list(range(1, 10))):
+        for vi, (rt, pl, kb) in enumerate(VARIANTS):
+            if tier == "quick" and R < 4 and vi not in (0, (R + seed) % len(VARIANTS)):
+                continue
+            if R < 4 and pl:
+                continue
+            sjobs.append({"R": R, "routing": rt, "placement": pl, "kb": kb})
+    for j, sr in C.pmap(dos, sjobs):
+        R = j["R"]
         res.evaluations += 1
         if sr.verdict != "ok":
-            res.oracle_failures.append({"what": f"stored-on-owner harness failed: {sr.verdict} {sr.stderr[-200:]}", "signature": "stored-run-failed", "case": {"ranks": R, "mode": "stored"}})
+            res.oracle_failures.append({"what": f"stored-on-owner harness failed: {sr.verdict} {sr.stderr[-200:]}", "signature": "stored-run-failed", "case": dict(j, ranks=R, mode="stored")})
             continue
         seen = {"map": {}, "set": {}, "dset": {}}
         sizes = None
@@ -212,15 +232,15 @@ def run(tier, seed, model_ok=True):
                 for tok in w[1:]:
                     key, own = tok.rsplit(":", 1)
                     if int(own) != r:
-                        res.oracle_failures.append({"what": f"{w[0]}: key {key} is stored on rank {r} but its owner is rank {own}", "signature": "stored-off-owner " + w[0], "case": {"ranks": R, "mode": "stored", "key": key}})
+                        res.oracle_failures.append({"what": f"{w[0]}: key {key} is stored on rank {r} but its owner is rank {own}", "signature": "stored-off-owner " + w[0], "case": dict(j, ranks=R, mode="stored", key=key)})
                     seen[w[0]][key] = seen[w[0]].get(key, 0) + 1
         for name, i in (("map", 0), ("set", 1), ("dset", 2)):
             dup = [k for k, c in seen[name].items() if c > 1]
             if dup:
-                res.oracle_failures.append({"what": f"{name}: key {dup[0]} is presented by for_all {seen[name][dup[0]]} times across the communicator", "signature": "stored-twice " + name, "case": {"ranks": R, "mode": "stored", "key": dup[0]}})
+                res.oracle_failures.append({"what": f"{name}: key {dup[0]} is presented by for_all {seen[name][dup[0]]} times across the communicator", "signature": "stored-twice " + name, "case": dict(j, ranks=R, mode="stored", key=dup[0])})
             if sizes and sizes[i] != len(seen[name]):
-                res.oracle_failures.append({"what": f"{name}: size() = {sizes[i]} but {len(seen[name])} distinct keys are stored", "signature": "stored-size " + name, "case": {"ranks": R, "mode": "stored"}})
-        res.distinct.add(("stored", R))
+                res.oracle_failures.append({"what": f"{name}: size() = {sizes[i]} but {len(seen[name])} distinct keys are stored", "signature": "stored-size " + name, "case": dict(j, ranks=R, mode="stored")})
+        res.distinct.add(("stored", R, j["routing"], j["placement"], j["kb"]))
         res.count("stored-keys", sum(len(v) for v in seen.values()))
 
     # ---- two communicators of different size in one process
@@ -246,6 +266,15 @@ def run(tier, seed, model_ok=True):
                             res.oracle_failures.append({"what": f"rank {r}: owner of a key differs from hash % size of ITS communicator (world {ow}/{ow2} want {h % R}; sub {os_} want {h % ssz})",
                                                         "signature": "owner-depends-on-other-communicator", "case": case})
                             break
+                elif w[0] == "mapr":
+                    mpirank, ygmrank = int(line.split("|")[1].split()[0]), int(line.split("|")[1].split()[1])
+                    if mpirank != ygmrank:
+                        res.oracle_failures.append({"what": f"ygm::comm on a rank-permuted communicator reports rank {ygmrank}, the MPI rank in that communicator is {mpirank}", "signature": "rank-differs-from-mpi-rank", "case": case})
+                    for tok in line.split("|")[0].split()[1:]:
+                        key, own = tok.rsplit(":", 1)
+                        seen_any = True
+                        if int(own) != mpirank:
+                            res.oracle_failures.append({"what": f"mapr: key {key} stored on MPI rank {mpirank} of the permuted communicator, owner is {own}", "signature": "stored-off-owner twocomm", "case": case})
                 elif w[0] in ("mapw", "maps"):
                     toks = line.split("|")[0].split()[1:]
                     myrank = r if w[0] == "mapw" else int(line.split("|")[1].split()[0])
@@ -317,7 +346,12 @@ def replay(data):
         sr = C.run_sim(binary, ["twocomm", 60, data.get("seed", 1)], nodes=nodes, ppn=ppn, want_log=False)
     elif case.get("mode") == "stored":
         nodes, ppn = factor_layout(R)
-        sr = C.run_sim(binary, ["stored", 120, data.get("seed", 1)], nodes=nodes, ppn=ppn, want_log=False)
+        env = {"YGM_COMM_ROUTING": case.get("routing", "NONE")}
+        if case.get("kb") is not None:
+            env["YGM_COMM_BUFFER_SIZE_KB"] = case["kb"]
+        if case.get("placement"):
+            env["SIMMPI_PLACEMENT"] = case["placement"]
+        sr = C.run_sim(binary, ["stored", 120, data.get("seed", 1)], nodes=nodes, ppn=ppn, env=env, want_log=False)
     else:
         sr = run_array_job(binary, R, [L])
     print("verdict", sr.verdict, sr.stderr[-300:])
